@@ -1,7 +1,7 @@
 import TRV.Proofs.Sound
 import TRV.Proofs.Drivers
 import TRV.Proofs.Engine
-import TRV.Proofs.CompleteDirect
+import TRV.Proofs.Complete6
 set_option linter.unusedSimpArgs false
 /-!
 # C02 — Recognition completeness: every genuine reply form yields its hop
@@ -234,6 +234,45 @@ theorem c02_sack_direct_bytes {s : SackSt} {t : Nat} {p : Sent}
       .accept t s.cfg.target true p.time :=
   sack_direct_complete hl htg h1 h2 h3 hff hfr b1 b2 b3 b4 b5 hfl b6 b7 b8 hsize hlk
 
+/-- ICMP/IPv6, bytes: echo reply of the target -/
+theorem c02_icmp6_echo_bytes {s : IcmpSt} {t : Nat} {p : Sent}
+    {ob1 ob2 ob3 ohop code ick : Nat} {body : Bytes}
+    (hl : s.cfg.localA.length = 16) (htg : s.cfg.target.length = 16)
+    (b3 : ohop < 256) (b4 : code < 256) (b13 : s.cfg.echoId < 65536) (b14 : t < 65536)
+    (hsize : 48 + body.length ≤ 1024) (hlk : icmpLookup s t = some p) :
+    icmpRecv s (icmpMsg6 ob1 ob2 ob3 ohop s.cfg.target s.cfg.localA 129 code ick (be16 s.cfg.echoId ++ be16 t) body) =
+      .accept t s.cfg.target true p.time :=
+  icmp6_echo_complete hl htg b3 b4 b13 b14 hsize hlk
+
+/-- ICMP/IPv6, bytes: time-exceeded (any code) quoting our echo request, any trailing bytes -/
+theorem c02_icmp6_te_bytes {s : IcmpSt} {t : Nat} {p : Sent}
+    {ob1 ob2 ob3 ohop code ick qb1 qb2 qb3 qplen qhop ety ecode eck : Nat} {r rest4 extra : Bytes}
+    (hl : s.cfg.localA.length = 16) (htg : s.cfg.target.length = 16) (hr : r.length = 16) (hrest : rest4.length = 4)
+    (b3 : ohop < 256) (b4 : code < 256) (b6 : 8 ≤ qplen) (b7 : qplen < 65536) (b10 : qhop < 256)
+    (b11 : ety = 128 ∨ ety = 129) (b12 : ecode < 256) (b13 : s.cfg.echoId < 65536) (b14 : t < 65536)
+    (hsize : 48 + (48 + extra.length) ≤ 1024) (hlk : icmpLookup s t = some p) :
+    icmpRecv s (icmpMsg6 ob1 ob2 ob3 ohop r s.cfg.localA 3 code ick rest4
+        (rawHdr6 qb1 qb2 qb3 qplen 58 qhop s.cfg.localA s.cfg.target ++
+          (([byte ety, byte ecode] ++ be16 eck ++ be16 s.cfg.echoId ++ be16 t) ++ extra))) =
+      .accept t r false p.time :=
+  icmp6_te_complete hl htg hr hrest b3 b4 b6 b7 b10 b11 b12 b13 b14 hsize hlk
+
+/-- UDP/IPv6, bytes: time-exceeded (code 0) / destination-unreachable quoting our datagram (quoted
+    payload length = the probe's identifier), any trailing bytes -/
+theorem c02_udp6_err_bytes {s : UdpSt} {p : Sent}
+    {ob1 ob2 ob3 ohop ty code ick qb1 qb2 qb3 qhop : Nat} {r rest4 w extra : Bytes}
+    (hl : s.cfg.localA.length = 16) (htg : s.cfg.target.length = 16) (hr : r.length = 16) (hrest : rest4.length = 4)
+    (hw : w.length = 4)
+    (b3 : ohop < 256) (b4 : code < 256) (hty : (ty = 3 ∧ code = 0) ∨ ty = 1)
+    (b6 : 8 ≤ p.id) (b7 : p.id < 65536) (b10 : qhop < 256)
+    (b11 : s.cfg.lport < 65536) (b12 : s.cfg.tport < 65536)
+    (hsize : 48 + (48 + extra.length) ≤ 1024) (hf : s.sent.find? (·.id = p.id) = some p) :
+    udpRecv s (icmpMsg6 ob1 ob2 ob3 ohop r s.cfg.localA ty code ick rest4
+        (rawHdr6 qb1 qb2 qb3 p.id 17 qhop s.cfg.localA s.cfg.target ++
+          ((be16 s.cfg.lport ++ be16 s.cfg.tport ++ w) ++ extra))) =
+      .accept p.ttl r (decide (r = s.cfg.target)) p.time :=
+  udp6_err_complete hl htg hr hrest hw b3 b4 hty b6 b7 b10 b11 b12 hsize hf
+
 /-- non-vacuity: a SYN-ACK with DF, ECE and a payload byte acknowledging the last probe (seq 0xffffffff:
     the acknowledgement number wraps to 0) -/
 example :
@@ -260,6 +299,9 @@ example :
 #print axioms c02_icmp4_echo_bytes
 #print axioms c02_tcp_direct_bytes
 #print axioms c02_sack_direct_bytes
+#print axioms c02_icmp6_echo_bytes
+#print axioms c02_icmp6_te_bytes
+#print axioms c02_udp6_err_bytes
 #print axioms c02_icmp4_te_view
 #print axioms c02_icmp4_echo_view
 #print axioms c02_udp4_view
